@@ -27,6 +27,7 @@ pub fn respond(line: &str) -> String {
         "disasop" => disas::disasop(rest),
         "disasinst" => disas::disasinst(rest),
         "disasbin" => disas::disasbin(rest),
+        "dismain" => disas::dismain(rest),
         "idmut" => reflect::idmut(rest),
         "loadbin" => load::loadbin(rest),
         _ => "bad-request".to_string(),
